@@ -30,6 +30,8 @@ META = {
     "level_note": "Trusts contextlib.contextmanager semantics (an exception at the yield is re-raised inside the "
     "generator). Generator finalisation timing of LambdaExpression.map on non-refcounting interpreters is an assumption.",
 }
+META["technique"] += '; who-may-read audits (locals, counters, RenderContext.parent); identity-preservation of namespaces handed to a context; exception-escape analysis for loop interrupts at the macro-call boundary'
+META["level_text"] += " Also decided (R6-R9): a namespace handed to a new context is stored by identity (late-bound with/for values reach it); `render … for` builds a fresh context per item; no code reaches another context's locals/counters or reads RenderContext.parent; no LiquidInterrupt escapes a macro call."
 
 CTX = "liquid2.context.RenderContext"
 
